@@ -5,6 +5,7 @@
   for the real library.
 -/
 import BS.Impl.Data
+import BS.Impl.Fast
 
 namespace BS.Impl
 
